@@ -126,7 +126,7 @@ class Executor:
                     elif kind == 'force_chain':
                         names = [self.task_of(ch, t) for t in op['tasks']]
                         how = op.get('as', 'name')
-                        arg = names if how == 'name' else [ch.tasks[n] for n in names]
+                        arg = names if how in ('name', 'generator') else [ch.tasks[n] for n in names]
                         if how == 'single':
                             arg = names[0]
                             names = names[:1]
@@ -134,6 +134,8 @@ class Executor:
                         target = s[1] if (s[0] == 'multi' and op.get('through_multi')) else ch
                         if target is not ch and how == 'object':
                             arg = names  # a task object belongs to one member chain; through the MultiChain use names
+                        if how == 'generator':
+                            arg = (n_ for n_ in names)  # any iterable of names is accepted, also a one-shot one
                         target.force(arg, recompute=op.get('recompute', False), delete_data=op.get('delete', False))
                         res = {'tasks': names}
                     elif kind == 'inspect':
